@@ -63,6 +63,9 @@ def c16(prop, tier):
     run_writepath(ck, prop, tier, 2, [2, 3], 60 if thorough else 10, crash_points=False, restart=False)
     # (d) replicated events of batches that are accepted in part only (DAG B of the replicator: refused head, refused ancestor)
     run_replicator(ck, prop, tier, 'B', 0, 40 if thorough else 6, 40)
+    # (e) replicated events of batches that fill in entries BELOW heads the store already holds (block reads that failed are
+    # retried with the next request: DAG G with its fetch-error phases): the heads do not move, the view must
+    run_replicator(ck, prop, tier, 'G', 0, 30 if thorough else 6, 40)
     return ck.finish()
 
 
